@@ -122,8 +122,8 @@ fn print_body(len: usize, nargs: usize) {
     let mut sink = Sink::new();
     let r = eval_print(&program, &mut state, &mut sink, &ConstantPoolIndex::new(0), &Arity::new(nargs as u8));
 
-    witness!(r.is_ok() && sink.n > 0, "W: something printed");
-    witness!(r.is_err(), "W: print rejected");
+    witness!(r.is_ok() && sink.n > 0, "W!len0: something printed");
+    witness!(r.is_err(), "W!len0: print rejected");
     match want {
         Some(n) => {
             assert!(r.is_ok(), "C15: print defined by the README failed");
@@ -170,20 +170,32 @@ harness!(print_two_byte_character, unwind = 6, {
     forget(r); forget(state); forget(program);
 });
 
-/// Wrong operand kinds: the format constant is not a string, or the operand stack is shorter than the arity.
-harness!(print_bad_operands, unwind = 6, {
+/// The format constant is not a string, or does not exist.
+harness!(print_bad_constant, unwind = 6, {
     let mut cp = Vec::with_capacity(2);
-    cp.push(ProgramObject::String("~".to_string()));
+    cp.push(ProgramObject::String("x".to_string()));
     cp.push(ProgramObject::Integer(1));
     let program = prog(filler_code(2), cp);
     let mut state = plain_state();
-    let which = any_u8_below(3); // 0: non-string constant, 1: constant index out of range, 2: stack too short
-    if which != 2 { state.operand_stack.push(Pointer::Null); }
-    let index = if which == 0 { 1 } else if which == 1 { 2 } else { 0 };
+    let index = 1 + any_u8_below(3) as u16; // 1: an integer constant, 2 and 3: no such constant
     let mut sink = Sink::new();
-    let r = eval_print(&program, &mut state, &mut sink, &ConstantPoolIndex::new(index), &Arity::new(1));
-    witness!(r.is_err() && which == 2, "W: short stack rejected");
-    assert!(r.is_err(), "C10: print with a wrong format constant / too few operands did not fail");
+    let r = eval_print(&program, &mut state, &mut sink, &ConstantPoolIndex::new(index), &Arity::new(0));
+    witness!(r.is_err() && index == 1, "W: non-string format constant rejected");
+    assert!(r.is_err(), "C10: print with a wrong or missing format constant did not fail");
+    assert!(sink.n == 0, "C10: a failing print wrote output");
+    forget(r); forget(state); forget(program);
+});
+
+/// The operand stack holds fewer values than the instruction's argument count.
+harness!(print_short_stack, unwind = 6, {
+    let mut cp = Vec::with_capacity(1);
+    cp.push(ProgramObject::String("~".to_string()));
+    let program = prog(filler_code(2), cp);
+    let mut state = plain_state();
+    let mut sink = Sink::new();
+    let r = eval_print(&program, &mut state, &mut sink, &ConstantPoolIndex::new(0), &Arity::new(1));
+    witness!(r.is_err(), "W: short stack rejected");
+    assert!(r.is_err(), "C10: print with too few operands did not fail");
     assert!(sink.n == 0, "C10: a failing print wrote output");
     forget(r); forget(state); forget(program);
 });
